@@ -1351,7 +1351,12 @@ class StatusType(TupleOf):
         super().__init__(EnumType(self.enum), StringType())
 
     def __getattr__(self, key):
-        return self.enum[key]
+        # an AttributeError for anything else than a member (e.g. when an other
+        # datatype looks for its own properties in compatible())
+        try:
+            return self.__dict__['enum'][key]
+        except KeyError:
+            raise AttributeError(f'{type(self).__name__} has no attribute or member {key!r}') from None
 
 
 def floatargs(kwds):
